@@ -413,6 +413,8 @@ def run(ctx):
         d = depth
         if not q and (cfg['bs'] > 2 or not (cfg['dtype'] == 'f8' or (cfg['row'] == 0 and cfg['bs'] == 2))):
             d = depth - 1     # the deepest level only for a sub-family of configurations (stated in evidence)
+        if q and cfg['dtype'] == 'f8' and (cfg['store'], cfg['row'], cfg['bs']) in (('npy', 0, 1), ('pool', 2, 2)):
+            d = depth + 1     # one level deeper for two configurations: flush, append, read, overwrite, kill needs it
         cases.append({'kind': 'config', 'cfg': cfg, 'depth': d, 'validate_depth': 2 if q else 3})
     res = []
 
@@ -435,7 +437,7 @@ def run(ctx):
                 [o for o in LONG_HISTORY], 'validate': True}
         ctx.record(case, run_one(case), 'long-history')
     ctx.add_sample({'history': LONG_HISTORY, 'note': 'every prefix judged, every raw op a crash point'}, key='long')
-    ctx.rule = ('histories: every operation sequence up to depth %d (first op is the initialising append) over '
+    ctx.rule = ('histories: every operation sequence up to depth %d (first op is the initialising append; quick: one level deeper for two float64 configurations; thorough: one level less outside a sub-family) over '
                 '{append, overwrite(first|last), delete-last, clear, flush, close+reopen, read-all, pickle round trip | pool: '
                 're-add, save} per store configuration (NpyStore|ArrayPool store x dtype x row shape x batch_size 1, 2, plus '
                 'float64 configurations with batch_size 5 and 50, where the row count grows a decimal digit); '
